@@ -188,3 +188,14 @@ package selftest
 //@   ensures gone: !r0
 
 func spec_anyKey() string { return spec_anyKey() }
+
+//@ func quantNestedLoop
+//@   requires x != nil && !sameobj(b, x)
+//@   requires all4: forall(k, 0, len(x.rows), len(x.rows[k]) == 4 && !sameobj(x.rows[k], b))
+//@   ensures keep: forall(k, 0, len(x.rows), len(x.rows[k]) == 4)
+//@   loop 1 invariant rows: 0 <= i && forall(k, 0, len(x.rows), len(x.rows[k]) == 4 && !sameobj(x.rows[k], b))
+
+//@ func quantNested
+//@   requires x != nil
+//@   requires all4: forall(k, 0, len(x.rows), len(x.rows[k]) == 4)
+//@   ensures four: r0 == 0 || r0 == 4
